@@ -21,7 +21,7 @@ def main():
     try:
         for d in sorted(os.listdir(STAGING)):
             prop = d.replace("out_", "")
-            for letter in "ABCDEFGH":
+            for letter in "ABCDEFGHIJ":
                 sid = f"{prop}-{letter}"
                 if only and sid not in only and prop not in only:
                     continue
